@@ -74,6 +74,19 @@ func (e *Env) GoEnv(extra ...string) []string {
 	return append(env, extra...)
 }
 
+// coverArgs: with VERIF_COVERDIR set (tools/cover.sh) the code under test is built with statement-coverage
+// instrumentation and every process started by the check writes its counters to that directory (GOCOVERDIR is
+// inherited). Used to see which parts of pointlander/peg the workloads reach; never part of a verdict.
+func coverArgs() []string {
+	d := os.Getenv("VERIF_COVERDIR")
+	if d == "" {
+		return nil
+	}
+	os.MkdirAll(d, 0o755)
+	os.Setenv("GOCOVERDIR", d)
+	return []string{"-cover", "-coverpkg=github.com/pointlander/peg/..."}
+}
+
 // RunGo runs the go tool in dir; returns combined output.
 func (e *Env) RunGo(dir string, args ...string) (string, error) {
 	cmd := exec.Command(e.Go, args...)
@@ -89,6 +102,7 @@ func (e *Env) RunGo(dir string, args ...string) (string, error) {
 func (e *Env) BuildPeg(race bool) (string, error) {
 	name := "peg"
 	args := []string{"build", "-tags", "verif"}
+	args = append(args, coverArgs()...)
 	if race {
 		args = append(args, "-race")
 		name = "peg-race"
@@ -136,6 +150,7 @@ func (e *Env) BuildDriver(name string, race bool, extra map[string]string, tags 
 	os.WriteFile(filepath.Join(dst, "go.mod"), []byte(gomod), 0o644)
 	bin := filepath.Join(dst, name+".bin")
 	args := []string{"build"}
+	args = append(args, coverArgs()...)
 	if tags != "" {
 		args = append(args, "-tags", tags)
 	}
